@@ -8,8 +8,8 @@ import (
 
 // Keys is the shared key alphabet: small, so random documents hit, but covering dot-illegal,
 // escaped, non-ASCII and astral keys.
-var Keys = []string{"a", "b", "c", "d", "aa", "0", "a b", "é", "😀", "a.b", "", "'", "\"", "x\\y", "-"}
-var keyWeights = []int{12, 10, 8, 4, 3, 3, 2, 2, 1, 2, 1, 1, 1, 1, 1}
+var Keys = []string{"a", "b", "c", "d", "aa", "0", "a b", "é", "😀", "a.b", "", "'", "\"", "x\\y", "-", "a\tb", "\n"}
+var keyWeights = []int{12, 10, 8, 4, 3, 3, 2, 2, 1, 2, 1, 1, 1, 1, 1, 1, 1}
 
 var keyGen = weighted(Keys, keyWeights)
 
